@@ -340,3 +340,37 @@ def o16_5(tier):
         out.append((f"double_y,exclude-middle,{method or 'default'}", mk("double_y", [0], method)))
     out.append(("double_y,exclude-two,lsq", mk("double_y", [1, 3], "lsq")))
     return out
+
+
+@obligation("O05.4", ["C05", "C03", "C13"], ["forsys.fmatrix:ForceMatrix.solve", "forsys.fmatrix:ForceMatrix.set_velocity_matrix"],
+            "velocity mode: the right-hand side that reaches the back end is, row by row, the junction's own velocity component rounded to three decimals "
+            "(|rounded - exact| <= 5e-4, A-round), the sum row stays the number of unknowns", tier="Pn")
+def o05_4(tier):
+    def h(ctx):
+        m, fr, fm, internal, used, mm, t0, _ = solve_fixture(ctx, "tri_star", 1, 4)
+        J, S = 90, 11
+        ctx.set(fm, "map_vid_to_row", ctx.dict([(S, 2), (J, 0)]))
+        ctx.set(fr, "frame_id", 1)
+        vel = {J: (ctx.real("vJx"), ctx.real("vJy")), S: (ctx.real("vSx"), ctx.real("vSy"))}
+        np_ = ctx.module("numpy") if ctx.mode != "sym" else None
+
+        def cv(it, a, kw):
+            if np_ is not None:
+                return np_.array(vel[a[1]])
+            from fvc import npmodel
+            return npmodel.NDArr(list(vel[a[1]]), (2,))
+        ctx.stub("forsys.time_series:TimeSeries.calculate_velocity", cv, "callee contract proved as O13.2")
+        log = []
+        if ctx.mode != "sym":
+            return
+        install_solvers(ctx, log)
+        TS = cls(ctx, "forsys.time_series", "TimeSeries")
+        res = ctx.callm(fm, "solve", ctx.alloc(TS), b_matrix="velocity", allow_negatives=False)
+        b = log[-1][2]
+        from fvc import sym
+        want = [vel[J][0], vel[J][1], vel[S][0], vel[S][1]]
+        for i in range(4):
+            ctx.ensure(ctx.close(b.data[i], sym.py_round(want[i], 3)), f"row {i}: that junction's velocity component, rounded to 3 decimals")
+            ctx.ensure(ctx.And(b.data[i] - want[i] <= 0.0005, want[i] - b.data[i] <= 0.0005), f"row {i}: within 5e-4 of the exact value")
+        ctx.ensure(ctx.close(b.data[4], len(used)), "sum row: number of unknowns")
+    return [("tri_star,two-junctions", h)]
